@@ -14,6 +14,7 @@ from ..spy import val_score_spy
 from .c06 import skip_matrix
 
 QUICK_SCALE = 5  # quick budgets below are multiplied by this (kept at about half a minute on 8 processes)
+THOROUGH_SCALE = 15  # thorough budgets below are multiplied by this (about ten minutes on 16 processes)
 
 RULE = ("paths of the 5 sparse estimators: alpha in {0, 0.05, 0.5, 5}, alpha_multiplier in and out of range, min_features "
         "in/out of range, keep_threshold in/out, patience / early-stopping settings, batch sizes, computed or precomputed "
